@@ -18,6 +18,7 @@ package afm
 
 import (
 	"bufio"
+	"bytes"
 	"fmt"
 	"io"
 	"math"
@@ -44,6 +45,7 @@ func Read(fd io.Reader) (*Metrics, error) {
 	scanner := bufio.NewScanner(fd)
 	// no limit on the line length: Write puts all ligatures of a glyph on one line
 	scanner.Buffer(nil, math.MaxInt)
+	scanner.Split(scanLines)
 	for scanner.Scan() {
 		line := scanner.Text()
 		if ff := strings.Fields(line); len(ff) > 0 && strings.HasPrefix(ff[0], "EndCharMetrics") {
@@ -209,4 +211,29 @@ func Read(fd io.Reader) (*Metrics, error) {
 	}
 
 	return res, nil
+}
+
+// scanLines is a split function for bufio.Scanner which accepts all three
+// line end conventions: LF, CR LF and (classic Mac OS) CR.
+func scanLines(data []byte, atEOF bool) (advance int, token []byte, err error) {
+	i := bytes.IndexAny(data, "\r\n")
+	switch {
+	case i < 0:
+		if atEOF && len(data) > 0 {
+			return len(data), data, nil
+		}
+		return 0, nil, nil
+	case data[i] == '\n':
+		return i + 1, data[:i], nil
+	case i+1 < len(data):
+		if data[i+1] == '\n' {
+			return i + 2, data[:i], nil
+		}
+		return i + 1, data[:i], nil
+	case atEOF:
+		return i + 1, data[:i], nil
+	default:
+		// a CR at the end of the buffer: wait to see whether a LF follows
+		return 0, nil, nil
+	}
 }
